@@ -5,6 +5,9 @@
      [ratify  |-> 0|1,
       present |-> <<0|1, 0|1>>, third |-> ms or -1,
       sends   |-> << <<dev, frame, echo, <<copy delays>>>>, ... >>      the scripted medium (round 1)
+      skew    |-> <<ms, ms>>   packet clock minus gateway clock at R's / S's gateway during the run (Binding!h.skew):
+                               recorded with the schedule; NO clause below reads it - the property does not let the
+                               outcome depend on whose clock stamps the packets,
       obs     |-> [r1, s1, r2, s2  outcome kinds of the first / second attempt ("none" = absent),
                    br, bs          is_binding after the first round (0|1),
                    rt, st          the packets of the returned tuples, as frame kinds,
